@@ -5,10 +5,11 @@
     entrywise equality of possibly-missing rationals, [raw_equiv] that of raw matrices with their labels.
     The hypotheses [loc_ok]/[sc_ok]/[params_ok]/[run_ok] are exactly the booleans the correspondence shards evaluate
     on every step of every generated history with the location/scale the implementation produced. *)
+From Coq Require Import String.
 From Coq Require Import PrimFloat.
 From Coq Require Import Reals.
 From Flocq Require Import Core.
-From PV Require Import Lib.Common Model.C15_Bv Proofs.C15_Bv Proofs.C15_Round.
+From PV Require Import Lib.Common Model.C15_Bv Proofs.C15_Bv Proofs.C15_Round Gen.C15_Kernel Proofs.C15_Kernel Proofs.C15_Laws.
 Local Open Scope Q_scope.
 
 (** unscale(from_numpy(raw)) = raw for every trait column, every location/scale the run-time check accepts
@@ -213,3 +214,142 @@ Proof.
   eexists. split; [reflexivity|]. split; [vm_compute; reflexivity|]. cbv zeta.
   split; [vm_compute; reflexivity|]. split; vm_compute; reflexivity.
 Qed.
+
+(** * The kernel expressions of the CURRENT source (Gen/C15_Kernel.v is regenerated from DenseBreedingValueMatrix.py and
+    DenseScaledMatrix.py on every run) are the ones the model is built from: the standardisation (1/scale)*(x-location), the
+    un-scaling scale*mat+location, for each summary the numpy reduction of the stored matrix and its un-scaling rule, the
+    NaN-aware mean / standard deviation of from_numpy and rescale with the exact zero-scale rule, the contribution of a matrix
+    operand (its unscaled values) in every taxa routine and in concat_taxa, the placeholders of concat_taxa and the resets of
+    DenseScaledMatrix.unscale.  ([lift2]/[lift3]: the element kernel with NaN propagation; a standard deviation is its square.) *)
+Theorem C15_kernel_is_model :
+  (forall raw l s, coleq (cdat (col_from_numpy raw l s)) (map (fun x => lift3 k_fn_standardize x l s) raw)
+                   /\ cloc (col_from_numpy raw l s) = l /\ csc (col_from_numpy raw l s) = s)
+  /\ (forall c, coleq (col_unscale c) (map (fun m => lift3 k_unscale m (csc c) (cloc c)) (cdat c)))
+  /\ (forall u c, ooeq (c_max u c) (omap (fun m => if u then lift3 k_tmax_unscale m (csc c) (cloc c) else m) (red_stat k_tmax_red (cdat c))))
+  /\ (forall u c, ooeq (c_min u c) (omap (fun m => if u then lift3 k_tmin_unscale m (csc c) (cloc c) else m) (red_stat k_tmin_red (cdat c))))
+  /\ (forall u c, ooeq (c_mean u c) (omap (fun m => if u then lift3 k_tmean_unscale m (csc c) (cloc c) else m) (red_stat k_tmean_red (cdat c))))
+  /\ (forall u c, ooeq (c_range u c) (omap (fun r => if u then lift2 k_trange_unscale r (csc c) else r) (red_stat k_trange_red (cdat c))))
+  /\ (forall u c, ooeq (c_var u c) (omap (fun v => if u then lift2 k_tvar_unscale v (csc c) else v) (red_stat k_tvar_red (cdat c))))
+  /\ (forall c, red_stat k_tstd_red (cdat c) = Some (np_var (cdat c)))
+  /\ (forall sd s, k_tstd_unscale sd s * k_tstd_unscale sd s == k_tvar_unscale (sd * sd) s)
+  /\ (forall c, c_argmax c = red_arg k_targmax_red (cdat c)) /\ (forall c, c_argmin c = red_arg k_targmin_red (cdat c))
+  /\ (forall raw, red_stat k_fn_location_red raw = Some (nanmean raw) /\ red_stat k_fn_scale_red raw = Some (nanvar raw)
+                  /\ red_stat k_sm_rescale_loc_red raw = Some (nanmean raw) /\ red_stat k_sm_rescale_scale_red raw = Some (nanvar raw))
+  /\ (forall s, k_fn_scale_zero s = Qeq_bool s 0 /\ k_fn_scale_fill = 1 /\ k_sm_rescale_zero s = Qeq_bool s 0 /\ k_sm_rescale_fill = 1)
+  /\ (forall b o p, step b o p = match raw_step (contrib_opd (op_contrib o)) (contrib_part k_concat_part) (unscale b) o with
+                                 | Some r => restd r p | None => None end)
+  /\ zero_one = (fun c => mkcol c (Some k_concat_loc0) (Some k_concat_sc0))
+  /\ (forall x l s : oq, oeq (omul (osub x l) (oinv s)) (lift3 k_sm_transform x l s))
+  /\ (forall x s l : oq, oeq (oadd (omul x s) l) (lift3 k_sm_untransform x s l))
+  /\ (forall x s l : oq, oeq (oadd (omul x s) l) (lift3 k_sm_unscale x s l))
+  /\ (forall x s l : oq, oeq (oadd (omul x s) l) (lift3 k_sm_rescale_up x s l))
+  /\ (forall x l s : oq, oeq (omul (osub x l) (oinv s)) (lift3 k_sm_rescale_down x l s))
+  /\ (forall c, cloc (col_unscale_ip c) = Some k_sm_unscale_location_reset /\ csc (col_unscale_ip c) = Some k_sm_unscale_scale_reset).
+Proof.
+  exact (conj col_from_numpy_kernel (conj col_unscale_kernel (conj c_max_kernel (conj c_min_kernel (conj c_mean_kernel
+        (conj c_range_kernel (conj c_var_kernel (conj c_std_kernel (conj k_tstd_unscale_model (conj c_argmax_kernel (conj c_argmin_kernel
+        (conj fn_reductions_kernel (conj k_fn_scale_rule_model (conj step_kernel (conj concat_placeholders_kernel
+        (conj k_sm_transform_model (conj k_sm_untransform_model (conj k_sm_unscale_model (conj k_sm_rescale_up_model
+        (conj k_sm_rescale_down_model sm_unscale_reset_kernel)))))))))))))))))))).
+Qed.
+Print Assumptions C15_kernel_is_model.
+
+(** the round trip stated about the generated expressions: the source's unscale expression applied to the source's standardisation
+    gives back the raw value for every location and every non-zero scale — in particular for whatever the zero-scale rule of the
+    source lets through ([fn_scale sd] = if <zero test> then <fill value> else sd), entrywise with missing values kept *)
+Theorem C15_kernel_roundtrip :
+  (forall x l s : Q, ~ s == 0 -> k_unscale (k_fn_standardize x l s) s l == x)
+  /\ (forall (raw : list oq) (l sd : Q), let s := Some (fn_scale sd) in
+       coleq (map (fun m => lift3 k_unscale m s (Some l)) (map (fun x => lift3 k_fn_standardize x (Some l) s) raw)) raw).
+Proof. exact (conj kernel_roundtrip kernel_roundtrip_col). Qed.
+Print Assumptions C15_kernel_roundtrip.
+
+(** the scale from_numpy stores (the exact standard deviation put through the source's zero-scale rule) passes the run-time check
+    [sc_ok] under which the model theorems are stated: 1 exactly for a constant trait, the standard deviation otherwise *)
+Theorem C15_kernel_scale_rule : forall (raw : list oq) (v sd : Q), nanvar raw = Some v -> 0 <= sd -> sd * sd == v ->
+  sc_ok raw (Some (fn_scale sd)) = true.
+Proof. exact kernel_scale_rule. Qed.
+Print Assumptions C15_kernel_scale_rule.
+
+(** covariance of the summaries, about the generated un-scaling rules: each inverts the source's standardisation on its own kind
+    of quantity (value, difference, variance, standard deviation), and the standardisation is strictly increasing for a positive
+    scale — so maximum, minimum, mean, range, variance, standard deviation on the original scale are those of the raw values *)
+Theorem C15_kernel_stats_commute : forall x y l s : Q, 0 < s ->
+  k_tmax_unscale (k_fn_standardize x l s) s l == x /\ k_tmin_unscale (k_fn_standardize x l s) s l == x
+  /\ k_tmean_unscale (k_fn_standardize x l s) s l == x
+  /\ k_trange_unscale (k_fn_standardize x l s - k_fn_standardize y l s) s == x - y
+  /\ (forall v, k_tvar_unscale (v / (s * s)) s == v) /\ (forall d, k_tstd_unscale (d / s) s == d)
+  /\ (k_fn_standardize x l s <= k_fn_standardize y l s <-> x <= y).
+Proof. exact kernel_stats_commute. Qed.
+Print Assumptions C15_kernel_stats_commute.
+
+(** DenseScaledMatrix, about the generated expressions: untransform inverts transform; unscale(inplace) with its reset values and
+    rescale with any new location and the new scale the zero rule lets through keep the raw value scale * mat + location *)
+Theorem C15_kernel_scaled : forall x m l s l' sd : Q, ~ s == 0 ->
+  k_sm_untransform (k_sm_transform x l s) s l == x
+  /\ k_sm_untransform (k_sm_unscale m s l) k_sm_unscale_scale_reset k_sm_unscale_location_reset == k_sm_untransform m s l
+  /\ k_sm_untransform (k_sm_rescale_down (k_sm_rescale_up m s l) l' (sm_scale sd)) (sm_scale sd) l' == k_sm_untransform m s l.
+Proof. exact kernel_scaled. Qed.
+Print Assumptions C15_kernel_scaled.
+
+Example C15_kernel_hyps_satisfiable :
+  nanvar [Some 0; Some 2; Some 2; Some 0] = Some 1 /\ 0 <= 1 /\ 1 * 1 == 1 /\ fn_scale 1 == 1 /\ fn_scale 0 == 1
+  /\ nanvar [Some 5; Some 5] = Some 0 /\ 0 < 2 /\ ~ 2 == 0.
+Proof. repeat split; try (vm_compute; reflexivity); discriminate. Qed.
+
+(** * Operations that do not re-standardise (reorder_taxa, sort_taxa, group_taxa, copies: the rows of the stored matrix are
+    selected / permuted, location and scale are kept): un-scaling commutes with every taxa selection and deletion, so every retained
+    taxon keeps its raw value — for every index list, every location and scale (also missing ones) *)
+Theorem C15_reorder_keeps_raw : forall (c : tcol) (ix : list Z) (ob : idx),
+  take_l (col_unscale c) ix = omap (fun d => col_unscale (mkcol d (cloc c) (csc c))) (take_l (cdat c) ix)
+  /\ delete_any (col_unscale c) ob = omap (fun d => col_unscale (mkcol d (cloc c) (csc c))) (delete_any (cdat c) ob).
+Proof. intros c ix ob. exact (conj (unscale_commutes_take c ix) (unscale_commutes_delete c ob)). Qed.
+Print Assumptions C15_reorder_keeps_raw.
+
+(** covariance under a change of unit and origin of the raw values (x -> a x + b, a <> 0; e.g. values scaled by 2^-40 or 2^20):
+    the stored standardised column is the same when location and scale are transformed accordingly, and un-scaling with the
+    transformed parameters yields the transformed raw values *)
+Theorem C15_standardise_affine_covariant : forall (raw : list oq) (c : tcol) (l s a b : Q), ~ s == 0 -> ~ a == 0 ->
+  coleq (cdat (col_from_numpy (map (omapf (fun x => a * x + b)) raw) (Some (a * l + b)) (Some (a * s)))) (cdat (col_from_numpy raw (Some l) (Some s)))
+  /\ (cloc c = Some l -> csc c = Some s ->
+      coleq (col_unscale (mkcol (cdat c) (Some (a * l + b)) (Some (a * s)))) (map (omapf (fun x => a * x + b)) (col_unscale c))).
+Proof. intros raw c l s a b Hs Ha. split; [now apply standardise_affine | now apply unscale_affine]. Qed.
+Print Assumptions C15_standardise_affine_covariant.
+
+(** sessions: a history is compositional — the matrix, the acceptance of the given parameters and the raw-level specification after
+    ops1 ++ ops2 are what ops2 makes of the state ops1 reached: a result depends on the state at the call, never on an earlier call *)
+Theorem C15_history_compositional :
+  (forall ops1 ops2 b, run b (ops1 ++ ops2) = run (run b ops1) ops2)
+  /\ (forall ops1 ops2 b, run_ok b (ops1 ++ ops2) = run_ok b ops1 && run_ok (run b ops1) ops2)
+  /\ (forall ops1 ops2 r, run_spec r (ops1 ++ ops2) = run_spec (run_spec r ops1) ops2).
+Proof. exact (conj run_app (conj run_ok_app run_spec_app)). Qed.
+Print Assumptions C15_history_compositional.
+
+Example C15_laws_hyps_satisfiable : ~ 2 == 0 /\ ~ (1 # 1099511627776) == 0
+  /\ take_l (col_unscale (mkcol [Some 1; None; Some (-1)] (Some 5) (Some 2))) [2%Z; 0%Z; (-2)%Z] = Some [Some 3; Some 7; None].
+Proof. repeat split; try discriminate. Qed.
+
+(** the numpy calls of the copy-on-manipulation routines and what is handed on: within one routine the values and both label arrays
+    go through the same numpy function with the same index object and no further keyword (no [mode]); select/delete work on
+    self.unscale() (the table shows the variable, the model theorem [C15_kernel_is_model] the contribution); the results are passed
+    to from_numpy / the constructor / the inherited in-place routine under their own names, and _restandardize takes matrix,
+    location and scale from the re-standardised temporary in this order *)
+Local Open Scope string_scope.
+Theorem C15_kernel_taxa_calls :
+  (same_calls "numpy.take" k_select_calls = true /\ map call_middle k_select_calls = [["indices"]; ["indices"]; ["indices"]]
+   /\ same_calls "numpy.delete" k_delete_calls = true /\ map call_middle k_delete_calls = [["obj"]; ["obj"]; ["obj"]]
+   /\ same_calls "numpy.insert" k_insert_calls = true /\ map call_middle k_insert_calls = [["obj"; "values"]; ["obj"; "taxa"]; ["obj"; "taxa_grp"]]
+   /\ same_calls "numpy.append" k_adjoin_calls = true /\ map call_middle k_adjoin_calls = [["values"]; ["taxa"]; ["taxa_grp"]])
+  /\ (k_fn_ctor = [("mat", "mat"); ("location", "location"); ("scale", "scale"); ("taxa", "taxa"); ("taxa_grp", "taxa_grp"); ("trait", "trait"); ("**", "kwargs")]
+   /\ k_select_build = [("mat", "mat"); ("taxa", "taxa"); ("taxa_grp", "taxa_grp"); ("trait", "trait"); ("**", "kwargs")]
+   /\ k_delete_build = [("mat", "mat"); ("taxa", "taxa"); ("taxa_grp", "taxa_grp"); ("trait", "trait"); ("**", "kwargs")]
+   /\ k_insert_build = [("mat", "values"); ("taxa", "taxa"); ("taxa_grp", "taxa_grp"); ("trait", "self.trait"); ("**", "kwargs")]
+   /\ k_adjoin_build = [("mat", "values"); ("taxa", "taxa"); ("taxa_grp", "taxa_grp"); ("trait", "self.trait"); ("**", "kwargs")]
+   /\ k_restd_assign = [("self._mat", "tmp._mat"); ("self._location", "tmp._location"); ("self._scale", "tmp._scale")])
+  /\ (k_manip_steps = ["mat = self._mat"; "self._mat = self.unscale()"; "try: method(**kwargs)"; "except Exception: self._mat = mat";
+                       "except Exception: raise"; "self._restandardize(self._mat)"]
+   /\ k_append_pass = [("method", "super(DenseBreedingValueMatrix, self).append_taxa"); ("values", "values"); ("taxa", "taxa"); ("taxa_grp", "taxa_grp"); ("**", "kwargs")]
+   /\ k_remove_pass = [("method", "super(DenseBreedingValueMatrix, self).remove_taxa"); ("obj", "obj"); ("**", "kwargs")]
+   /\ k_incorp_pass = [("method", "super(DenseBreedingValueMatrix, self).incorp_taxa"); ("obj", "obj"); ("values", "values"); ("taxa", "taxa"); ("taxa_grp", "taxa_grp"); ("**", "kwargs")]).
+Proof. exact (conj calls_uniform (conj builds_kernel inplace_kernel)). Qed.
+Print Assumptions C15_kernel_taxa_calls.
